@@ -20,8 +20,9 @@ def setup_path(designs_dir):
   for p in (designs_dir, os.environ.get('PV_REPO', '/repo')):
     if p not in sys.path: sys.path.insert(0, p)
 
-def translate(make_top, backend, outdir):
-  """elaborate a fresh instance, translate it in `outdir`; returns (top, text)"""
+def translate(make_top, backend, outdir, pre_translate=None):
+  """elaborate a fresh instance, translate it in `outdir`; returns (top, text). `pre_translate(top, backend)`
+  (optional, defined by the design module) runs between elaboration and translation (metadata, placeholder pass)"""
   P = backend_pass(backend)
   os.makedirs(outdir, exist_ok=True)
   cwd = os.getcwd()
@@ -30,6 +31,7 @@ def translate(make_top, backend, outdir):
     top = make_top()
     top.elaborate()
     top.set_metadata(P.enable, True)
+    if pre_translate is not None: pre_translate(top, backend)
     top.apply(P())
     with open(top.get_metadata(P.translated_filename)) as f:
       text = f.read()
@@ -47,11 +49,11 @@ def run_job(job):
     except Exception as e:
       out[d['uid']] = {'import_error': f'{type(e).__name__}: {e}'}
       continue
-    for b in job['backends']:
+    for b in d.get('backends') or job['backends']:
       texts = []
       for rep in range(job.get('reps', 2)):
         try:
-          _, text = translate(mod.make_top, b, os.path.join(job['outdir'], str(d['uid']), b))
+          _, text = translate(mod.make_top, b, os.path.join(job['outdir'], str(d['uid']), b), getattr(mod, 'pre_translate', None))
           texts.append(text)
         except Exception as e:
           texts.append({'error': f'{type(e).__name__}: {str(e)[:300]}'})
